@@ -7,6 +7,10 @@ TECH = "bounded symbolic execution of the real code's go/ssa form, every branch/
 BASE = "cd /repo && go test -vet=off -count=1 -timeout 25m ./..."
 
 CLAIMED = {
+ "C05": dict(
+   text="Single-thread part of the property, decided for all schedules within the bounds: 1-3 top-level Posts, each handler may Post again (nesting <= 2, <= 2/3 nested posts, symbolic choice), Post from inside an I/O completion callback dispatched in the same batch, then 3/4 poll cycles with arbitrary batches. Asserted: no Lock by the holder of the poller mutex (self-deadlock), every handler runs exactly once and in posting order, Pending() and Posted() equal the posts not yet run (+ I/O in flight) between cycles, the eventfd counter is > 0 after every Post (a blocked loop is woken), PollOne reports n>0 when it ran a handler.",
+   note="NOT covered (the engine executes one thread): interleavings of Post from other goroutines with the loop's dispatch/arm/disarm, and data-race freedom. The repaired code was additionally run under `go test -race` (io tests) but that is sampling, not part of this claim.",
+   ref="DESIGN.md §4 C05 (a)"),
  "C13": dict(
    text="(a) NewIO (+NewTimer), Dial tcp/udp (resolve, socket, set-nonblock, options, connect with EINPROGRESS/select/SO_ERROR, getsockname), Listen + Accept, NewPacketConn, Open executed with EVERY environment call free to fail (descriptor allocation, epoll_ctl, setsockopt/bind/listen/connect/getsockname/fcntl, select) in any combination: on an error return the kernel model's open-descriptor set equals the one before the call; on success Close releases exactly the descriptors created. (b) Close, creation of another object that receives the same number (lowest-free allocation), Close again: the other object's descriptor is still open (file/conn, listener, packet conn, timer, IO). (c) in the reactor world, whenever an operation is in flight on an object in either direction, ioc.pending references the object's slot (all histories of k=3/4 starts/cancels/polls with both directions).",
    note="Not applicable clauses (DESIGN §5): the garbage collector itself (only the reachability mechanism is checked), websocket Handshake/AsyncHandshake descriptors (net.Dial/tls/http), NewUDPPeer and NewMirroredBuffer (covered under C12/C11 when their packages run on the model).",
